@@ -297,6 +297,9 @@ void OPNMIDIplay::realTime_ResetState()
         noteUpdateAll(uint16_t(ch), Upd_All);
         noteUpdateAll(uint16_t(ch), Upd_Off);
     }
+    // The pedals were reset with the controllers: release what they were holding
+    if(!m_chipChannels.empty())
+        killSustainingNotes(-1, -1, OpnChannel::LocationData::Sustain_ANY);
     synth.m_masterVolume = MasterVolumeDefault;
 }
 
